@@ -163,6 +163,25 @@ func TestC05(t *testing.T) {
 	}
 
 	// (d) pure backoff function
+	rec.Regress(t, func(raw json.RawMessage) *Violation {
+		var probe map[string]json.RawMessage
+		_ = json.Unmarshal(raw, &probe)
+		if _, ok := probe["attempt"]; ok {
+			var x struct {
+				Min     int64 `json:"backoff_min_ns"`
+				Max     int64 `json:"backoff_max_ns"`
+				Attempt int   `json:"attempt"`
+			}
+			_ = json.Unmarshal(raw, &x)
+			return checkBackoff(time.Duration(x.Min), time.Duration(x.Max), x.Attempt)
+		}
+		c, ok := parseFsCase(raw)
+		if !ok {
+			return nil
+		}
+		v, _ := runC05(c)
+		return v
+	})
 	t.Run("backoff", func(t *testing.T) {
 		check := func(ft failer, mnN, mxN int64, attempt int) {
 			mn, mx := time.Duration(mnN), time.Duration(mxN)
